@@ -38,13 +38,27 @@ CLAIM = {
             'numpy RNG draws of phi/psi are a model parameter (read back from the generator). binary64 rounding '
             'of the Jakes sum is outside the theorems: values are compared with tolerance sqrt(L)*(1e-12 + '
             '2^-48*(2*pi*Fd*t + 2*pi)), which becomes vacuous for Fd*t above ~1e13 cycles (inherent to binary64 '
-            'time). Requests with n <= 0, non-integer n and L = 0 (ZeroDivisionError, modelled) are outside '
-            'the property quantifier.'}
+            'time). Robustness classes: R1 (element types) - theorem request_value_only / counter_monotone (the '
+            'model request is the integer VALUE, the counter an unbounded Nat) + correspondence and oracles with '
+            'sizes of every numpy integer type crossing its range, 0-d arrays, bool, typed Fd/Ts/L (narrow float '
+            'Fd/Ts add that type eps times the phase to the tolerance), typed shapes; R2 (layout/shape) - '
+            'correspondence/oracle only (phases delivered Fortran/strided/reversed/transposed/read-only through '
+            'the RS parameter, zero-length axes, size-0 requests, phi/psi layouts and float32/list inputs of the '
+            'free function); R3 - theorem produced_independent_of_future + content snapshots of every returned '
+            'array, phases, function inputs, caller lists; R4 - theorems rejected_request_keeps_state / '
+            'rejected_requests_invisible + exact error-kind correspondence and unchanged-observables oracle '
+            '(negative sizes -> ValueError, non-integers incl. 5.0 -> TypeError: the oracle demands that '
+            'ill-formed sizes raise); R5 - boundary families (n=0, skip 0, L=1, Fd 0/0.0/-0.0, Ts=0.0 oracle '
+            'only, shapes with axes 0/1, sizes and positions 2^p+-1, 2^31/2^32) by correspondence/oracle; R6 - '
+            'oracle/correspondence only (time axis rescaled by 1e-12..1e12, tolerances relative to the phase); '
+            'R7 - theorem history_equiv_fresh + life-cycle oracle (fresh generator with replayed phases, '
+            'copy/deepcopy, get_similar_fading_generator, RandomState shared by two generators). L = 0 '
+            '(ZeroDivisionError, modelled) is outside the property quantifier.'}
 
 TWO_PI = 2.0 * math.pi
 EPS48 = 2.0 ** -48
 # largest observed error / tolerance ratios (reported in the evidence: the margin of the stated tolerances)
-STATS = {'oracle_value': 0.0, 'oracle_chunk': 0.0, 'corr_value': 0.0, 'chunk_bit_exact': 0, 'chunk_compared': 0}
+STATS = {'oracle_twin': 0.0, 'oracle_value': 0.0, 'oracle_chunk': 0.0, 'corr_value': 0.0, 'chunk_bit_exact': 0, 'chunk_compared': 0}
 
 
 # ------------------------------------------------------------------ helpers
@@ -53,37 +67,203 @@ def _impl():
     return fading_generators
 
 
-def norm_shape(shape):
-    """None | int | tuple  ->  None | tuple   (what the property calls the configured shape)"""
-    if shape is None:
-        return None
-    if isinstance(shape, int):
-        return (shape,)
-    return tuple(int(d) for d in shape)
+# ---- arguments as the caller passes them (robustness classes R1/R2/R4/R5) ----
+# A request size spec (JSON) is None (default argument), a Python int, or
+#   {'t': 'uint16', 'v': 40000}   numpy integer scalar of that width
+#   {'t': 'arr0:int32', 'v': 7}   0-d integer array
+#   {'t': 'bool', 'v': 1}         Python bool (an int)
+#   {'t': 'float'|'float32'|..., 'v': 2.5}   Python / numpy float (not an integer object)
+#   {'t': 'str'} / {'t': 'list', 'v': 3}     not a number
+# A shape spec is None, an int, a list of ints (passed as a tuple), or
+#   {'t': 'np:int64', 'v': 3}       numpy integer scalar
+#   {'t': 'list', 'v': [2, 3]}      Python list (the caller mutates it after the call)
+#   {'t': 'nptuple:int8', 'v': [2, 3]}  tuple of numpy integers
+#   {'t': 'arr:int32', 'v': [2, 3]}     integer array
+#   {'t': 'neg', 'v': [2, -1]} / {'t': 'negint', 'v': -1} / {'t': 'str'} / {'t': 'float'} / {'t': 'tuplefloat'}
+INT_TYPES = ('int8', 'uint8', 'int16', 'uint16', 'int32', 'uint32', 'int64', 'uint64')
+FLOAT_TYPES = ('float16', 'float32', 'float64')
 
 
-def shape_arg(shape):
-    """JSON (None | int | list) -> constructor argument"""
-    if shape is None or isinstance(shape, int):
-        return shape
-    return tuple(int(d) for d in shape)
+def mk_size(spec):
+    if spec is None or isinstance(spec, int):
+        return spec
+    t, v = spec['t'], spec.get('v')
+    if t in INT_TYPES:
+        return getattr(np, t)(v)
+    if t.startswith('arr0:'):
+        return np.array(v, dtype=t[5:])
+    if t == 'bool':
+        return bool(v)
+    if t == 'float':
+        return float(v)
+    if t in FLOAT_TYPES:
+        return getattr(np, t)(v)
+    if t == 'str':
+        return 'a'
+    if t == 'list':
+        return [v]
+    raise ValueError(spec)
 
 
-def shape_tok(shape):
-    if shape is None:
+def size_value(spec):
+    """('ok', n) integer-valued object with value n >= 0 | ('reject', kind) must raise |
+    ('either', n) integral float: may be refused or taken as n"""
+    if spec is None:
+        return 'ok', 1
+    if isinstance(spec, int):
+        return ('ok', spec) if spec >= 0 else ('reject', 'ValueError')
+    t, v = spec['t'], spec.get('v')
+    if t in INT_TYPES or t == 'bool' or (t.startswith('arr0:') and t[5:] in INT_TYPES):
+        return ('ok', int(v)) if int(v) >= 0 else ('reject', 'ValueError')
+    if t == 'float' or t in FLOAT_TYPES or t.startswith('arr0:'):
+        return ('either', int(v)) if float(v) == int(v) and v >= 0 else ('reject', 'TypeError')
+    return 'reject', 'TypeError'
+
+
+def size_tok(spec):
+    """the model's view of the argument: its integer value, or x = not an integer object"""
+    if spec is None:
+        return ''
+    if isinstance(spec, int):
+        return str(spec)
+    t = spec['t']
+    if t in INT_TYPES or t == 'bool' or (t.startswith('arr0:') and t[5:] in INT_TYPES):
+        return str(int(spec['v']))
+    return 'x'
+
+
+def size_dtype(spec):
+    return None if (spec is None or isinstance(spec, int)) else spec['t']
+
+
+def mk_shape(spec):
+    if spec is None or isinstance(spec, int):
+        return spec
+    if isinstance(spec, (list, tuple)):
+        return tuple(int(d) for d in spec)
+    t, v = spec['t'], spec.get('v')
+    if t.startswith('np:'):
+        return getattr(np, t[3:])(v)
+    if t == 'list':
+        return [int(d) for d in v]
+    if t.startswith('nptuple:'):
+        return tuple(getattr(np, t[8:])(d) for d in v)
+    if t.startswith('arr:'):
+        return np.array(v, dtype=t[4:])
+    if t == 'neg':
+        return tuple(int(d) for d in v)
+    if t == 'negint':
+        return int(v)
+    if t == 'str':
+        return 'ab'
+    if t == 'float':
+        return 2.5
+    if t == 'tuplefloat':
+        return (2, 1.5)
+    raise ValueError(spec)
+
+
+def shape_value(spec):
+    """('ok', None | tuple) | ('reject', kind)"""
+    if spec is None:
+        return 'ok', None
+    if isinstance(spec, int):
+        return ('ok', (spec,)) if spec >= 0 else ('reject', 'ValueError')
+    if isinstance(spec, (list, tuple)):
+        return 'ok', tuple(int(d) for d in spec)
+    t, v = spec['t'], spec.get('v')
+    if t.startswith('np:'):
+        return 'ok', (int(v),)
+    if t == 'list' or t.startswith('nptuple:') or t.startswith('arr:'):
+        return 'ok', tuple(int(d) for d in v)
+    if t in ('neg', 'negint'):
+        return 'reject', 'ValueError'
+    return 'reject', 'TypeError'
+
+
+def shape_tok(spec):
+    """token of the model's RawShape"""
+    if spec is None:
         return 'n'
-    if isinstance(shape, int):
-        return 'i%d' % shape
-    return 't' + ';'.join(str(int(d)) for d in shape)
+    if isinstance(spec, int):
+        return 'i%d' % spec
+    if isinstance(spec, (list, tuple)):
+        return 't' + ';'.join(str(int(d)) for d in spec)
+    t, v = spec['t'], spec.get('v')
+    if t.startswith('np:') or t == 'negint':
+        return 'i%d' % int(v)
+    if t in ('list', 'neg') or t.startswith('nptuple:') or t.startswith('arr:'):
+        return 't' + ';'.join(str(int(d)) for d in v)
+    return 'x'
+
+
+def norm_shape(shape):
+    """logical configured shape of a VALID shape spec: None | tuple"""
+    st, val = shape_value(shape)
+    assert st == 'ok', shape
+    return val
+
+
+shape_arg = mk_shape
 
 
 def op_tok(op):
     kind, arg = op[0], op[1]
     if kind == 'g':
-        return 'g' if arg is None else 'g%d' % arg
+        return 'g' + size_tok(arg)
     if kind == 's':
-        return 's%d' % arg
-    return 'S' + shape_tok(arg if not isinstance(arg, list) else tuple(arg))
+        return 's' + size_tok(arg)
+    return 'S' + shape_tok(arg)
+
+
+def mk_param(v, t):
+    """a numeric parameter passed as the given Python / numpy type (same value)"""
+    if t is None:
+        return v
+    if t == 'int':
+        return int(v)
+    if t == 'float':
+        return float(v)
+    return getattr(np, t)(v)
+
+
+def narrow_eps(case):
+    """relative precision a narrow float type of Fd/Ts legitimately limits the phase to"""
+    e = 0.0
+    for name in ('Fd', 'Ts'):
+        t = (case.get('types') or {}).get(name)
+        if t in ('float16', 'float32'):
+            e = max(e, float(np.finfo(getattr(np, t)).eps))
+    return e
+
+
+def case_tag(case, arg=None):
+    """input class of a case: which robustness variants it exercises, and the type of the failing
+    argument when there is one (computed from the input, coarse enough to group)"""
+    tags = []
+    if isinstance(arg, dict):
+        tags.append('arg=' + arg['t'])
+    elif isinstance(arg, int) and not isinstance(arg, bool) and arg < 0:
+        tags.append('arg=negative')
+    specs = [o[1] for o in case.get('ops', []) if o[0] in 'gs'] + [c[1] for c in case.get('chunks', [])]
+    if any(size_dtype(a) for a in specs) and not isinstance(arg, dict):
+        tags.append('typed-sizes')
+    if (any(o[0] == 'S' and isinstance(o[1], dict) for o in case.get('ops', []))
+            or isinstance(case.get('shape'), dict)) and not isinstance(arg, dict):
+        tags.append('typed-shapes')
+    if case.get('types'):
+        tags.append('params=' + '+'.join(sorted(set(case['types'].values()))))
+    if isinstance(case.get('seed'), dict) and 'layout' in case['seed']:
+        tags.append('layout=' + case['seed']['layout'])
+    if case.get('scale_exp10'):
+        tags.append('scaled')
+    return ','.join(tags)
+
+
+def cls(kind, case, k, n, arg=None):
+    """failure class: what failed + robustness variant of the input + how far the generator had run"""
+    tag = case_tag(case, arg)
+    return '%s:%s%s' % (kind, (tag + ':') if tag else '', regime(k, n))
 
 
 def tol_for(L, Fd, tmax):
@@ -150,87 +330,441 @@ class ConstRS:
         return np.full(shape, self.c, dtype=float)
 
 
+class LayoutRS:
+    """RandomState stand-in: the same draws as RandomState(seed) handed over in another
+    memory layout (R2) or read-only (R3)"""
+
+    def __init__(self, seed, mode):
+        self.rs = np.random.RandomState(int(seed))
+        self.mode = mode
+
+    def rand(self, *shape):
+        base = self.rs.rand(*shape)
+        m = self.mode
+        if m == 'F':
+            return np.asfortranarray(base)
+        if m == 'transposed':
+            return np.ascontiguousarray(base.T).T
+        if m == 'strided':
+            big = np.full((2 * base.shape[0],) + base.shape[1:], 123.0) if base.ndim else base
+            if base.ndim:
+                big[::2] = base
+                return big[::2]
+            return base
+        if m == 'reversed':
+            return np.ascontiguousarray(base[::-1])[::-1] if base.ndim else base
+        if m == 'readonly':
+            base.flags.writeable = False
+            return base
+        raise ValueError(m)
+
+
+class RecordingRS:
+    """RandomState wrapper that remembers every draw"""
+
+    def __init__(self, seed):
+        self.rs = np.random.RandomState(int(seed))
+        self.draws = []
+
+    def rand(self, *shape):
+        u = self.rs.rand(*shape)
+        self.draws.append(u.copy())
+        return u
+
+
+class ReplayRS:
+    def __init__(self, draws):
+        self.draws = [d.copy() for d in draws]
+
+    def rand(self, *shape):
+        u = self.draws.pop(0)
+        assert u.shape == tuple(shape), (u.shape, shape)
+        return u
+
+
 def make_rs(seed):
     if isinstance(seed, dict):
-        return ConstRS(float(seed['const']))
+        if 'const' in seed:
+            return ConstRS(float(seed['const']))
+        return LayoutRS(seed['seed'], seed['layout'])
     return np.random.RandomState(int(seed))
 
 
-def make_gen(case, cls=None):
+def scaled(case):
+    """(Fd, Ts) actually passed: the whole time axis rescaled by 10^e (Fd*10^e, Ts/10^e) — R6"""
+    e = case.get('scale_exp10') or 0
+    if not e:
+        return case['Fd'], case['Ts']
+    return case['Fd'] * (10.0 ** e), case['Ts'] / (10.0 ** e)
+
+
+def make_gen(case, cls=None, rs=None, shape_obj='build'):
     fg = _impl()
     cls = cls or fg.JakesSampleGenerator
-    return cls(case['Fd'], case['Ts'], int(case['L']), shape_arg(case['shape']), make_rs(case['seed']))
+    types = case.get('types') or {}
+    Fd, Ts = scaled(case)
+    return cls(mk_param(Fd, types.get('Fd')), mk_param(Ts, types.get('Ts')),
+               mk_param(int(case['L']), types.get('L')),
+               mk_shape(case['shape']) if isinstance(shape_obj, str) else shape_obj,
+               rs if rs is not None else make_rs(case['seed']))
+
+
+def twin_case(case):
+    """the canonical twin: Python ints / float64 / C layout / unscaled, rejected calls left out"""
+    t = {k: v for k, v in case.items() if k not in ('types', 'scale_exp10')}
+    if isinstance(case.get('seed'), dict) and 'layout' in case['seed']:
+        t['seed'] = case['seed']['seed']
+    st, val = shape_value(case['shape'])
+    t['shape'] = None if val is None else list(val)
+    ops = []
+    for kind, arg in case['ops']:
+        if kind == 'S':
+            st, val = shape_value(arg)
+            if st == 'ok':
+                ops.append(['S', None if val is None else list(val)])
+        else:
+            st, val = size_value(arg)
+            if st == 'ok':
+                ops.append([kind, None if arg is None else val])
+            elif st == 'either':
+                ops.append([kind, {'either': val}])
+    t['ops'] = ops
+    return t
 
 
 def entry_count(shape):
     s = norm_shape(shape)
-    return 1 if s is None else int(np.prod(s, dtype=np.int64)) if len(s) else 1
+    return 1 if s is None else max(1, int(np.prod(s, dtype=np.int64))) if len(s) else 1
 
 
 # ------------------------------------------------------------------ oracles
 # every oracle takes a JSON-serialisable case, runs the REAL code and returns
 # None (property holds) or (class, detail); classes are computed from the input.
+def observables(g):
+    """everything a user can see of a generator (R4: compared before / after a rejected call)"""
+    def safe(f):
+        try:
+            return f()
+        except Exception as e:
+            return 'exc:' + type(e).__name__
+    import warnings
+    h = g.get_samples()
+    with warnings.catch_warnings():
+        warnings.simplefilter('ignore')     # int * np.float16 overflow in the private time property
+        tm = safe(lambda: repr(float(g._current_time)))
+    return {'samples-object': id(h), 'samples': None if h is None else np.array(h, copy=True),
+            'shape': safe(lambda: repr(g.shape)), 'phi': g._phi_l.copy(), 'psi': g._psi_l.copy(),
+            'phi-object': id(g._phi_l), 'time': tm,
+            'index': safe(lambda: repr(getattr(g, '_sample_index', None)))}
+
+
+def diff_observables(a, b):
+    for key in a:
+        x, y = a[key], b[key]
+        same = np.array_equal(x, y) if isinstance(x, np.ndarray) or isinstance(y, np.ndarray) else x == y
+        if not same:
+            return key
+    return None
+
+
+def case_tol(case, L, tmax):
+    """stated value tolerance of a case (see tol_for); a rescaled time axis adds the rounding of the
+    rescaling, a float16/float32 Fd or Ts limits the phase to that type's precision"""
+    t = tol_for(L, case['Fd'], tmax) * (2.0 if case.get('scale_exp10') else 1.0)
+    return t + 2.0 * math.sqrt(max(L, 1)) * narrow_eps(case) * (TWO_PI * abs(case['Fd']) * abs(tmax) + 1.0)
+
+
 def o_history(case):
-    """count / shape / value of every request of a history, against the closed
-    form at exactly (number of samples requested before + j) * Ts"""
+    """count / shape / dtype / value of every request of a history, against the closed form at exactly
+    (number of samples requested before + j) * Ts — request sizes, shapes and parameters passed as
+    any integer / float type (R1), phases delivered in any memory layout (R2), earlier outputs and
+    phases untouched by later calls (R3), ill-formed calls raise and change nothing (R4)"""
     Fd, Ts, L = case['Fd'], case['Ts'], int(case['L'])
     k = 0          # the oracle's own count of samples consumed so far
+    ctor_shape = mk_shape(case['shape'])
     try:
-        g = make_gen(case)
+        g = make_gen(case, shape_obj=ctor_shape)
     except Exception as e:
-        return 'exception:%s:%s' % (type(e).__name__, regime(0, 1)), 'constructor: %r' % (e,)
-    shape = norm_shape(shape_arg(case['shape']))
+        return cls('exception:' + type(e).__name__, case, 0, 1, case['shape']), 'constructor: %r' % (e,)
+    shape = norm_shape(case['shape'])
+    if isinstance(ctor_shape, list):
+        ctor_shape.append(5)        # the caller goes on using its own list
+        if tuple(g.shape) != shape:
+            return cls('shape-attribute', case, 0, 1, case['shape']), \
+                'the shape follows the list the caller passed to the constructor: %r' % (g.shape,)
     pending = [('g', None, True)] + [(o[0], o[1], False) for o in case['ops']]
     held = None
-    for kind, arg, is_ctor in pending:
+    kept = []                                   # (array handed out earlier, copy taken then)
+    phases = (g._phi_l.copy(), g._psi_l.copy())
+
+    def earlier_outputs_intact():
+        for i, (arr, cp) in enumerate(kept):
+            if not np.array_equal(arr, cp):
+                return i
+        return None
+
+    for step_no, (kind, arg, is_ctor) in enumerate(pending):
         if kind == 'S':
+            st, val = shape_value(arg)
+            obj = mk_shape(arg)
+            before = observables(g)
             try:
-                g.shape = shape_arg(arg)
+                g.shape = obj
+                raised = None
             except Exception as e:
-                return 'exception:%s:%s' % (type(e).__name__, regime(k, 1)), 'shape setter: %r' % (e,)
-            shape = norm_shape(shape_arg(arg))
+                raised = e
+            if st == 'reject':
+                if raised is None:
+                    return cls('invalid-shape-accepted', case, k, 1, arg), 'shape = %r was accepted' % (obj,)
+                d = diff_observables(before, observables(g))
+                if d:
+                    return cls('rejected-call-changed-state', case, k, 1, arg), \
+                        'shape = %r raised %s but changed %s' % (obj, type(raised).__name__, d)
+                continue
+            if raised is not None:
+                return cls('exception:' + type(raised).__name__, case, k, 1, arg), 'shape = %r: %r' % (obj, raised)
+            shape = val
+            if isinstance(obj, list):
+                obj.append(5)       # the caller goes on using its own list
+            got = g.shape
+            if not (got is None and val is None or (got is not None and tuple(got) == val)):
+                return cls('shape-attribute', case, k, 1, arg), 'shape = %r reads back as %r' % (mk_shape(arg), got)
             if g.get_samples() is not held:
-                return 'get_samples-changed-by-shape:' + regime(k, 1), 'at sample %d' % k
+                return cls('get_samples-changed-by-shape', case, k, 1), 'at sample %d' % k
+            phases = (g._phi_l.copy(), g._psi_l.copy())
             continue
-        if kind == 's':
-            n = int(arg)
-            try:
-                g.skip_samples_for_next_generation(n)
-            except Exception as e:
-                return 'exception:%s:%s' % (type(e).__name__, regime(k, n)), 'skip(%d) at %d: %r' % (n, k, e)
-            if g.get_samples() is not held:
-                return 'get_samples-changed-by-skip:' + regime(k, n), 'at sample %d' % k
-            k += n
-            continue
-        n = 1 if arg is None else int(arg)
-        reg = regime(k, n)
+        st, val = size_value(arg)
+        obj = None if is_ctor else mk_size(arg)
+        n = val if st != 'reject' else 1
+        reg_n = max(n, 1)
+        before = observables(g) if st != 'ok' else None
         try:
             if not is_ctor:
-                if arg is None:
+                if kind == 's':
+                    g.skip_samples_for_next_generation(obj)
+                elif arg is None:
                     g.generate_more_samples()
                 else:
-                    g.generate_more_samples(n)
-            h = g.get_samples()
+                    g.generate_more_samples(obj)
+            raised = None
         except Exception as e:
-            return 'exception:%s:%s' % (type(e).__name__, reg), 'generate_more_samples(%s) at sample %d: %r' % (arg, k, e)
+            raised = e
+        what = '%s(%r) at sample %d' % ('skip' if kind == 's' else 'generate_more_samples', obj, k)
+        if st == 'reject' and raised is None:
+            return cls('invalid-size-accepted', case, k, 1, arg), what + ' was accepted'
+        if st in ('reject', 'either') and raised is not None:
+            d = diff_observables(before, observables(g))
+            if d:
+                return cls('rejected-call-changed-state', case, k, 1, arg), \
+                    '%s raised %s but changed %s' % (what, type(raised).__name__, d)
+            continue
+        if raised is not None:
+            return cls('exception:' + type(raised).__name__, case, k, reg_n, arg), '%s: %r' % (what, raised)
+        bad = earlier_outputs_intact()
+        if bad is not None:
+            return cls('output-changed-by-later-call', case, k, reg_n), \
+                '%s changed an array returned %d requests earlier' % (what, len(kept) - bad)
+        if not (np.array_equal(g._phi_l, phases[0]) and np.array_equal(g._psi_l, phases[1])):
+            return cls('phases-changed-by-request', case, k, reg_n), what
+        if kind == 's':
+            if g.get_samples() is not held:
+                return cls('get_samples-changed-by-skip', case, k, reg_n), 'at sample %d' % k
+            k += n
+            continue
+        h = g.get_samples()
         held = h
         exp_shape = ((n,) if shape is None else shape + (n,))
         if not isinstance(h, np.ndarray):
-            return 'shape:' + reg, 'get_samples() is %s' % type(h).__name__
+            return cls('shape', case, k, reg_n), 'get_samples() is %s' % type(h).__name__
         if h.shape[-1:] != (n,):
-            return 'count:' + reg, 'request of %d at sample %d returned shape %s' % (n, k, h.shape)
+            return cls('count', case, k, reg_n), 'request of %d at sample %d returned shape %s' % (n, k, h.shape)
         if h.shape != exp_shape:
-            return 'shape:' + reg, 'request of %d returned shape %s, expected %s' % (n, h.shape, exp_shape)
+            return cls('shape', case, k, reg_n), 'request of %d returned shape %s, expected %s' % (n, h.shape, exp_shape)
+        if h.dtype != np.complex128:
+            return cls('dtype', case, k, reg_n), 'samples have dtype %s' % h.dtype
+        if h.size and any(np.shares_memory(h, o) for o in [x[0] for x in kept] + [g._phi_l, g._psi_l]):
+            return cls('outputs-share-memory', case, k, reg_n), what + ' returned memory already handed out / internal'
         js = probe_indices(n)
         ref = ref_values(Fd, Ts, g._phi_l, g._psi_l, k + js)
-        tol = tol_for(L, Fd, (k + n) * Ts)
+        tol = case_tol(case, L, (k + n) * Ts)
         err = float(np.max(np.abs(h[..., js] - ref))) if h.size else 0.0
         STATS['oracle_value'] = max(STATS['oracle_value'], err / tol)
         if not err <= tol:
             w = int(js[int(np.argmax(np.max(np.abs(h[..., js] - ref).reshape(-1, len(js)), axis=0)))])
-            return 'value:' + reg, ('request of %d at sample %d: entry %d differs from the Jakes sum at (%d)*Ts by '
-                                    '%.3g (tolerance %.3g)' % (n, k, w, k + w, err, tol))
+            return cls('value', case, k, reg_n), ('request of %d at sample %d: entry %d differs from the Jakes sum at '
+                                               '(%d)*Ts by %.3g (tolerance %.3g)' % (n, k, w, k + w, err, tol))
+        kept.append((h, h.copy()))
+        if len(kept) > 5:
+            del kept[1]
         k += n
+    bad = earlier_outputs_intact()
+    if bad is not None:
+        return cls('output-changed-by-later-call', case, k, 1), 'an earlier array changed by the end of the history'
+    return None
+
+
+def run_plain(g, ops):
+    """drive a canonical (twin) history; returns the arrays of its generate requests"""
+    outs = []
+    for kind, arg in ops:
+        if isinstance(arg, dict) and 'either' in arg:
+            arg = arg['either']
+        if kind == 'S':
+            g.shape = mk_shape(arg)
+        elif kind == 's':
+            g.skip_samples_for_next_generation(arg)
+        else:
+            g.generate_more_samples(arg)
+            outs.append(g.get_samples())
+    return outs
+
+
+def o_twin(case):
+    """the same logical history through the canonical twin (Python ints, float64 parameters,
+    C-contiguous phases, unscaled time axis, rejected calls never issued) must give positionally
+    equal outputs — first-principles metamorphic check for R1, R2, R4, R6 (no formula involved)"""
+    L = int(case['L'])
+    tw = twin_case(case)
+    try:
+        a = make_gen(case)
+        b = make_gen(tw)
+    except Exception as e:
+        return cls('exception:' + type(e).__name__, case, 0, 1), 'constructor: %r' % (e,)
+    if not (np.array_equal(a._phi_l, b._phi_l) and np.array_equal(a._psi_l, b._psi_l)):
+        return cls('phases-differ-from-twin', case, 0, 1), 'same draws, different phi/psi'
+    outs_a = [a.get_samples()]
+    k = 1
+    ks = [0]
+    for kind, arg in case['ops']:
+        try:
+            if kind == 'S':
+                st, val = shape_value(arg)
+                a.shape = mk_shape(arg)
+            else:
+                st, val = size_value(arg)
+                if kind == 's':
+                    a.skip_samples_for_next_generation(mk_size(arg))
+                else:
+                    if arg is None:
+                        a.generate_more_samples()
+                    else:
+                        a.generate_more_samples(mk_size(arg))
+                    outs_a.append(a.get_samples())
+                    ks.append(k)
+                k += val
+        except Exception as e:
+            if st == 'ok':
+                return cls('exception:' + type(e).__name__, case, k, 1), '%s %r: %r' % (kind, arg, e)
+            if st == 'either':
+                # the twin must not issue it either
+                for o in tw['ops']:
+                    if isinstance(o[1], dict) and o[1].get('either') == val and o[0] == kind:
+                        tw['ops'].remove(o)
+                        break
+    try:
+        outs_b = [b.get_samples()] + run_plain(b, tw['ops'])
+    except Exception as e:
+        return None     # the canonical history itself fails: o_history reports it
+    if len(outs_a) != len(outs_b):
+        return cls('twin-request-count', case, k, 1), '%d outputs vs %d for the twin' % (len(outs_a), len(outs_b))
+    for i, (x, y) in enumerate(zip(outs_a, outs_b)):
+        n = y.shape[-1]
+        if x.shape != y.shape or x.dtype != y.dtype:
+            return cls('twin-shape', case, ks[i], max(n, 1)), \
+                'request %d: %s %s vs twin %s %s' % (i, x.shape, x.dtype, y.shape, y.dtype)
+        tol = case_tol(case, L, (ks[i] + n) * case['Ts']) * 2
+        err = float(np.max(np.abs(x - y))) if x.size else 0.0
+        STATS['oracle_twin'] = max(STATS.get('oracle_twin', 0.0), err / tol)
+        if not err <= tol:
+            return cls('twin-mismatch', case, ks[i], max(n, 1)), \
+                'request %d (first sample %d, %d samples) differs from the canonical twin by %.3g (tol %.3g)' \
+                % (i, ks[i], n, err, tol)
+    return None
+
+
+def o_lifecycle(case):
+    """R7: after any history the generator is equivalent to a fresh one with the same phases that
+    skipped to the same sample number; copies continue identically and independently; the similar
+    generator is independent; a RandomState shared by two generators is only used by constructor
+    and shape assignments"""
+    import copy as _copy
+    fg = _impl()
+    L = int(case['L'])
+    n = int(case['tail'])
+    rec = RecordingRS(case['seed'])
+    try:
+        g = make_gen(case, rs=rec)
+        k = 1
+        shape = norm_shape(case['shape'])
+        for kind, arg in case['ops']:
+            if kind == 'S':
+                g.shape = mk_shape(arg)
+                shape = norm_shape(arg)
+            elif kind == 's':
+                g.skip_samples_for_next_generation(arg)
+                k += arg
+            else:
+                g.generate_more_samples(arg)
+                k += 1 if arg is None else arg
+        reg = regime(k, n)
+        before = observables(g)
+        # similar generator: same configuration, independent state
+        sim = g.get_similar_fading_generator()
+        if (sim.shape != g.shape or sim.Fd != g.Fd or sim.Ts != g.Ts or sim.L != g.L):
+            return 'similar-config-differs:' + reg, 'shape %r/%r' % (sim.shape, g.shape)
+        sim.generate_more_samples(n)
+        sim.skip_samples_for_next_generation(7)
+        ref = ref_values(case['Fd'], case['Ts'], sim._phi_l, sim._psi_l, 1 + probe_indices(n))
+        hs = sim.get_samples()
+        if hs.shape[-1] != n or float(np.max(np.abs(hs[..., probe_indices(n)] - ref))) > tol_for(L, case['Fd'], (1 + n) * case['Ts']):
+            return 'similar-not-fresh:' + reg, 'the similar generator does not start at sample 1'
+        d = diff_observables(before, observables(g))
+        if d:
+            return 'similar-not-independent:' + reg, 'using the similar generator changed %s' % d
+        # copies
+        c, dd = _copy.copy(g), _copy.deepcopy(g)
+        c.generate_more_samples(n)
+        hc = c.get_samples().copy()
+        d = diff_observables(before, observables(g))
+        if d:
+            return 'copy-not-independent:' + reg, 'using a copy changed %s of the original' % d
+        dd.generate_more_samples(n)
+        g.generate_more_samples(n)
+        hg = g.get_samples()
+        if not (np.array_equal(hc, hg) and np.array_equal(dd.get_samples(), hg)):
+            return 'copy-diverges:' + reg, 'copy / deepcopy / original return different samples for the same request'
+        # fresh generator with the same phases (replayed draws) that skipped to sample k
+        fresh_case = dict(case, shape=None if shape is None else list(shape))
+        f = make_gen(fresh_case, rs=ReplayRS(rec.draws[-2:]))
+        if k > 1:
+            f.skip_samples_for_next_generation(k - 1)
+        f.generate_more_samples(n)
+        hf = f.get_samples()
+        tol = 2 * tol_for(L, case['Fd'], (k + n) * case['Ts'])
+        if hf.shape != hg.shape or float(np.max(np.abs(hf - hg))) > tol:
+            return 'differs-from-fresh:' + reg, ('after the history the generator returns %s, a fresh one with the same '
+                                                 'phases skipped to sample %d returns something else' % (hg.shape, k))
+        # shared RandomState
+        outs = []
+        for busy in (False, True):
+            rs = np.random.RandomState(int(case['seed']))
+            A = make_gen(case, rs=rs)
+            if busy:
+                for kind, arg in case['ops']:
+                    if kind == 's':
+                        A.skip_samples_for_next_generation(arg)
+                    elif kind == 'g':
+                        A.generate_more_samples(arg)
+                A.get_samples()
+            B = make_gen(case, rs=rs)
+            B.generate_more_samples(n)
+            B.shape = 2
+            B.generate_more_samples(3)
+            outs.append((B._phi_l.copy(), B.get_samples().copy()))
+        if not (np.array_equal(outs[0][0], outs[1][0]) and np.array_equal(outs[0][1], outs[1][1])):
+            return 'shared-rs-consumed:' + reg, 'requests on one generator changed what another generator sharing its RS draws'
+    except Exception as e:
+        return 'exception:%s:R7' % type(e).__name__, repr(e)[:300]
     return None
 
 
@@ -239,8 +773,10 @@ def o_chunking(case):
     (same phases): the chunked generator must return the same samples"""
     Fd, Ts, L = case['Fd'], case['Ts'], int(case['L'])
     k0, chunks = int(case['k0']), case['chunks']
-    total = sum(int(c[1]) for c in chunks)
-    reg = regime(k0, max(1, min(int(c[1]) for c in chunks)))
+    total = sum(size_value(c[1])[1] for c in chunks)
+    nmin = max(1, min(size_value(c[1])[1] for c in chunks))
+    tag = case_tag(case)
+    reg = (tag + ':' if tag else '') + regime(k0, nmin)
     try:
         a = make_gen(case)
         b = make_gen(case)
@@ -252,15 +788,15 @@ def o_chunking(case):
         a.generate_more_samples(total)
         whole = a.get_samples()
         if whole.shape[-1] != total:
-            return 'count:' + regime(k0, total), 'request of %d returned %s' % (total, whole.shape)
+            return 'count:' + (tag + ':' if tag else '') + regime(k0, total), 'request of %d returned %s' % (total, whole.shape)
         tol = 2 * tol_for(L, Fd, (k0 + 1 + total) * Ts)
         pos = 0
-        for kind, n in chunks:
-            n = int(n)
+        for kind, spec in chunks:
+            n = size_value(spec)[1]
             if kind == 's':
-                b.skip_samples_for_next_generation(n)
+                b.skip_samples_for_next_generation(mk_size(spec))
             else:
-                b.generate_more_samples(n)
+                b.generate_more_samples(mk_size(spec))
                 part = b.get_samples()
                 if part.shape != whole.shape[:-1] + (n,):
                     return 'count:' + reg, 'chunk of %d at offset %d returned %s' % (n, pos, part.shape)
@@ -329,35 +865,78 @@ def o_magnitude(case):
     return None
 
 
+def vary_array(x, mode):
+    """the same values in another dtype / memory layout / container (R1, R2)"""
+    if mode in (None, 'C'):
+        return x
+    if mode == 'F':
+        return np.asfortranarray(x)
+    if mode == 'transposed':
+        return np.ascontiguousarray(x.T).T
+    if mode == 'strided':
+        big = np.full((2 * x.shape[0],) + x.shape[1:], 123.0, dtype=x.dtype)
+        big[::2] = x
+        return big[::2]
+    if mode == 'reversed':
+        return np.ascontiguousarray(x[::-1])[::-1]
+    if mode == 'readonly':
+        y = x.copy()
+        y.flags.writeable = False
+        return y
+    if mode == 'list':
+        return x.tolist()
+    if mode == 'float32':
+        return x.astype(np.float32)
+    raise ValueError(mode)
+
+
 def o_function(case):
-    """the free function generate_jakes_samples: NSamples samples of the right
-    shape, Jakes sum at current_time + j*Ts, next time advanced by NSamples*Ts"""
+    """the free function generate_jakes_samples: NSamples samples of the right shape and dtype, Jakes
+    sum at current_time + j*Ts, next time advanced by NSamples*Ts; phi/psi passed in any layout /
+    float32 / as lists and NSamples as any integer type give the same result, the inputs are not
+    modified and the output does not alias them"""
     fg = _impl()
-    Fd, Ts, L, N = case['Fd'], case['Ts'], int(case['L']), int(case['N'])
-    shape = norm_shape(shape_arg(case['shape']))
+    Fd, Ts, L = case['Fd'], case['Ts'], int(case['L'])
+    st, N = size_value(case['N'])
+    mode = case.get('arr')
+    shape = norm_shape(case['shape'])
     k0 = int(case['k0'])
     ct = k0 * Ts
-    reg = regime(k0, N)
+    tag = ','.join(x for x in ['arr=' + mode if mode else '',
+                               'N=' + size_dtype(case['N']) if size_dtype(case['N']) else ''] if x)
+    reg = (tag + ':' if tag else '') + regime(k0, max(N, 1))
     rs = np.random.RandomState(int(case['seed']))
     dims = (L, 1) if shape is None else (L,) + shape + (1,)
     phi = TWO_PI * rs.rand(*dims)
     psi = TWO_PI * rs.rand(*dims)
+    if mode == 'float32':       # the float32 values are the logical phases
+        phi, psi = phi.astype(np.float32).astype(np.float64), psi.astype(np.float32).astype(np.float64)
+    phi_in, psi_in = vary_array(phi, mode), vary_array(psi, mode)
+    snap = (np.array(phi_in, copy=True), np.array(psi_in, copy=True))
     try:
-        new_ct, h = fg.generate_jakes_samples(Fd, Ts, N, L, shape, ct, phi, psi)
+        new_ct, h = fg.generate_jakes_samples(Fd, Ts, mk_size(case['N']), L, shape, ct, phi_in, psi_in)
     except Exception as e:
         return 'exception:%s:%s' % (type(e).__name__, reg), repr(e)[:300]
+    if not (np.array_equal(np.asarray(phi_in), snap[0]) and np.array_equal(np.asarray(psi_in), snap[1])):
+        return 'input-modified:' + reg, 'phi_l / psi_l were changed by the call'
+    if isinstance(phi_in, np.ndarray) and h.size and (np.shares_memory(h, phi_in) or np.shares_memory(h, psi_in)):
+        return 'output-aliases-input:' + reg, 'the returned samples share memory with phi_l / psi_l'
     exp_shape = (N,) if shape is None else shape + (N,)
     if h.shape[-1:] != (N,):
         return 'count:' + reg, 'NSamples=%d at time %r returned shape %s' % (N, ct, h.shape)
     if h.shape != exp_shape:
         return 'shape:' + reg, '%s != %s' % (h.shape, exp_shape)
+    if h.dtype != np.complex128:
+        return 'dtype:' + reg, 'samples have dtype %s' % h.dtype
     if not abs(new_ct - (k0 + N) * Ts) <= 1e-9 * max(1.0, (k0 + N)) * Ts:
         return 'next-time:' + reg, 'returned %r, expected %r' % (new_ct, (k0 + N) * Ts)
     js = probe_indices(N)
     ref = ref_values(Fd, Ts, phi, psi, k0 + js)
     # the function's time origin is the float ct = fl(k0*Ts): one more rounding of the time
     tol = 2 * tol_for(L, Fd, (k0 + N) * Ts)
-    err = float(np.max(np.abs(h[..., js] - ref)))
+    if mode == 'float32':
+        tol += 2 * math.sqrt(L) * float(np.finfo(np.float32).eps) * (TWO_PI * abs(Fd) * (k0 + N) * Ts + TWO_PI)
+    err = float(np.max(np.abs(h[..., js] - ref))) if h.size else 0.0
     if not err <= tol:
         return 'value:' + reg, 'differs from the Jakes sum by %.3g (tol %.3g)' % (err, tol)
     return None
@@ -365,6 +944,8 @@ def o_function(case):
 
 ORACLES = {
     'generate_more_samples': o_history,
+    'generate_more_samples.twin': o_twin,
+    'generate_more_samples.lifecycle': o_lifecycle,
     'generate_more_samples.chunking': o_chunking,
     'generate_more_samples.zero_doppler': o_zero_doppler,
     'generate_more_samples.magnitude': o_magnitude,
@@ -532,6 +1113,180 @@ def tiny_request_history(rng, n_req, start=None):
     return cfg
 
 
+# ---- robustness case families (R1 .. R7) ----
+def small_cfg(rng, **kw):
+    cfg = {'Fd': rng.choice([5, 37.25, 100, 0.5]), 'Ts': rng.choice([1e-3, 0.37e-4, 1e-6, 0.1]),
+           'L': rng.choice([1, 2, 4]), 'shape': rng.choice([None, 2, [2, 1]]), 'seed': rng.below(1 << 31)}
+    cfg.update(kw)
+    return cfg
+
+
+def typed_range_cases(rng):
+    """R1: request and skip sizes carried by every numpy integer type, with the cumulative position
+    crossing the range of the type, followed by Python-int requests"""
+    out = []
+    plan = {'int8': (100, 100, 50), 'uint8': (200, 100, 30), 'int16': (30000, 30000, 9000),
+            'uint16': (40000, 40000, 20000)}
+    for dt, sizes in plan.items():
+        for kinds in ('gg', 'sg', 'gs', 'ss'):
+            ops = [[kd, {'t': dt, 'v': v}] for kd, v in zip(kinds, sizes)]
+            ops += [['g', 5], ['g', None], ['g', {'t': dt, 'v': sizes[2]}], ['s', {'t': dt, 'v': sizes[2]}], ['g', 3]]
+            out.append(small_cfg(rng, ops=ops))
+    for dt, edge in (('int32', 1 << 31), ('uint32', 1 << 32)):
+        for kinds in ('sg', 'ss'):
+            ops = [['s', {'t': dt, 'v': edge - 12 - rng.randint(0, 5)}], [kinds[1], {'t': dt, 'v': 20}], ['g', 4],
+                   ['s', {'t': dt, 'v': 7}], ['g', {'t': dt, 'v': 3}], ['g', None]]
+            out.append(small_cfg(rng, ops=ops))
+    for dt in ('int64', 'uint64', 'arr0:int32', 'arr0:int64', 'arr0:uint8', 'arr0:uint16', 'bool'):
+        v = 1 if dt == 'bool' else 200 if dt == 'arr0:uint8' else rng.randint(2, 3000)
+        ops = [['g', {'t': dt, 'v': v}], ['s', {'t': dt, 'v': v}], ['g', {'t': dt, 'v': v}], ['g', 2]]
+        if dt == 'arr0:uint16':
+            ops = [['s', {'t': dt, 'v': 40000}], ['g', {'t': dt, 'v': 30000}], ['g', 2]]
+        out.append(small_cfg(rng, ops=ops))
+    return out
+
+
+def typed_shape_cases(rng):
+    """R1/R3: every way of passing a shape (numpy integer scalars, lists the caller keeps using, tuples of
+    numpy integers, integer arrays), to the constructor and to the setter, repeated and in changing order"""
+    specs = [{'t': 'np:int64', 'v': 3}, {'t': 'np:uint8', 'v': 2}, {'t': 'list', 'v': [2, 3]}, {'t': 'list', 'v': [1]},
+             {'t': 'nptuple:int8', 'v': [2, 1]}, {'t': 'nptuple:uint16', 'v': [3]}, {'t': 'arr:int32', 'v': [2, 2]},
+             {'t': 'arr:int64', 'v': [1, 2, 1]}, {'t': 'list', 'v': []}, {'t': 'list', 'v': [2, 0]}]
+    out = []
+    for i, sp in enumerate(specs):
+        other = specs[(i + 3) % len(specs)]
+        out.append(small_cfg(rng, shape=sp, ops=[['g', 2], ['S', other], ['g', 3], ['S', sp], ['S', sp], ['g', None],
+                                                 ['S', None], ['g', 2], ['S', other], ['g', 1]]))
+    return out
+
+
+def has_caller_list(case):
+    return any(isinstance(sp, dict) and sp['t'] == 'list'
+               for sp in [case.get('shape')] + [o[1] for o in case.get('ops', []) if o[0] == 'S'])
+
+
+def typed_sizes(rng, case):
+    """give the sizes / shapes of a plain history random integer types that can hold them"""
+    ops = []
+    for kind, arg in case['ops']:
+        if kind in 'gs' and arg is not None and rng.chance(0.7):
+            fits = [t for t in INT_TYPES if arg <= np.iinfo(t).max]
+            t = rng.choice(fits + ['arr0:int64'])
+            arg = {'t': t, 'v': arg}
+        elif kind == 'S' and arg is not None and rng.chance(0.7):
+            if isinstance(arg, int):
+                arg = {'t': 'np:' + rng.choice(['int64', 'int8', 'uint16']), 'v': arg}
+            else:
+                arg = {'t': rng.choice(['list', 'nptuple:int8', 'nptuple:int64', 'arr:int32', 'arr:int64']), 'v': arg}
+        ops.append([kind, arg])
+    out = dict(case, ops=ops)
+    if isinstance(case['shape'], list) and rng.chance(0.5):
+        out['shape'] = {'t': rng.choice(['list', 'nptuple:uint8', 'arr:int64']), 'v': case['shape']}
+    elif isinstance(case['shape'], int) and rng.chance(0.5):
+        out['shape'] = {'t': 'np:int32', 'v': case['shape']}
+    return out
+
+
+BAD_SIZES = [-1, -3, {'t': 'int16', 'v': -2}, {'t': 'float', 'v': 2.5}, {'t': 'float', 'v': 5.0},
+             {'t': 'float32', 'v': 3.0}, {'t': 'str'}, {'t': 'list', 'v': 3}, {'t': 'arr0:float64', 'v': 2.0},
+             {'t': 'float64', 'v': 0.5}]
+BAD_SHAPES = [{'t': 'neg', 'v': [2, -1]}, {'t': 'negint', 'v': -1}, {'t': 'str'}, {'t': 'float'}, {'t': 'tuplefloat'}]
+
+
+def rejected_history(rng, case):
+    """R4: ill-formed calls sprinkled into a history"""
+    ops = []
+    for op in case['ops']:
+        if rng.chance(0.4):
+            r = rng.uniform()
+            ops.append(['g', rng.choice(BAD_SIZES)] if r < 0.4 else ['s', rng.choice(BAD_SIZES)] if r < 0.7
+                       else ['S', rng.choice(BAD_SHAPES)])
+        ops.append(op)
+    ops.append([rng.choice('gs'), rng.choice(BAD_SIZES)])
+    ops.append(['S', rng.choice(BAD_SHAPES)])
+    ops.append(['g', rng.randint(1, 6)])
+    return dict(case, ops=ops)
+
+
+def boundary_cases(rng):
+    """R5: zero-size requests, zero skips, default / single-sample requests, L = 1, Fd = 0 / 0.0 / -0.0,
+    shapes with axes of length 0 and 1, request sizes and positions at powers of two +- 1"""
+    out = []
+    for Fd in (0, 0.0, -0.0, 5):
+        for shape in (None, 1, [1, 1], [0], [2, 0], []):
+            ops = [['g', 0], ['s', 0], ['g', 1], ['g', None], ['g', 0], ['s', 1], ['g', 2], ['S', shape], ['g', 0], ['g', 3]]
+            out.append(small_cfg(rng, Fd=Fd, shape=shape, L=rng.choice([1, 1, 3]), ops=ops))
+    for e in (1, 2, 5, 8, 10, 13):
+        for d in (-1, 0, 1):
+            n = (1 << e) + d
+            if n >= 1:
+                out.append(small_cfg(rng, L=1, ops=[['s', (1 << (e + 9)) + d], ['g', n], ['g', n], ['s', n], ['g', 1]]))
+    for pos in ((1 << 31) - 3, (1 << 32) - 3, (1 << 33) - 3):
+        out.append(small_cfg(rng, ops=[['s', pos], ['g', 1], ['g', 1], ['g', 4], ['g', 0], ['g', 1]]))
+    return out
+
+
+def scaled_case(rng, case):
+    """R6: the whole time axis rescaled (Fd*10^e, Ts/10^e): the process in sample numbers is the same"""
+    return dict(case, scale_exp10=rng.choice([-12, -9, -6, -3, 3, 6, 9, 12]))
+
+
+def layout_case(rng, case):
+    """R2: the random phases arrive non-contiguous / Fortran ordered / read-only"""
+    return dict(case, seed={'layout': rng.choice(['F', 'transposed', 'strided', 'reversed', 'readonly']),
+                            'seed': rng.below(1 << 31)})
+
+
+def typed_params_case(rng, case):
+    """R1: Fd / Ts / L given as Python ints, numpy floats of narrow width, numpy integers"""
+    types = {}
+    out = dict(case)
+    r = rng.uniform()
+    if r < 0.35:
+        out['Fd'] = float(np.float32(case['Fd']))
+        types['Fd'] = 'float32'
+    elif r < 0.5:
+        out['Fd'] = float(np.float16(min(case['Fd'], 1000.0)))
+        types['Fd'] = 'float16'
+    elif r < 0.8:
+        out['Fd'] = int(round(case['Fd'])) or 1
+        types['Fd'] = rng.choice(['int', 'int32', 'uint8' if out['Fd'] < 256 else 'int64'])
+    r = rng.uniform()
+    if r < 0.4:
+        out['Ts'] = float(np.float32(case['Ts']))
+        types['Ts'] = 'float32'
+    elif r < 0.55 and case['Ts'] >= 1e-4:
+        out['Ts'] = float(np.float16(case['Ts']))
+        types['Ts'] = 'float16'
+    elif r < 0.7 and case['Ts'] == 1.0:
+        out['Ts'] = 1
+        types['Ts'] = 'int'
+    types['L'] = rng.choice(['int8', 'uint8', 'int32', 'int64', 'uint16'])
+    out['types'] = types
+    return out
+
+
+def valid_int_history(rng, n_ops=None):
+    cfg = gen_config(rng)
+    cfg['ops'] = gen_ops(rng, cfg, n_ops or rng.randint(1, 8))
+    return cfg
+
+
+def robustness_cases(rng, n_each):
+    """one list of (family, case) pairs covering R1, R2, R4, R5, R6 (R3 is checked on every history,
+    R7 has its own oracle)"""
+    out = [('R1-range', c) for c in typed_range_cases(rng)]
+    out += [('R1-typed-shape', c) for c in typed_shape_cases(rng)]
+    out += [('R5-boundary', c) for c in boundary_cases(rng)]
+    for _ in range(n_each):
+        out.append(('R1-typed-sizes', typed_sizes(rng, valid_int_history(rng))))
+        out.append(('R1-typed-params', typed_params_case(rng, valid_int_history(rng))))
+        out.append(('R2-layout', layout_case(rng, valid_int_history(rng))))
+        out.append(('R4-rejected', rejected_history(rng, typed_sizes(rng, valid_int_history(rng, rng.randint(1, 6))))))
+        out.append(('R6-scale', scaled_case(rng, valid_int_history(rng))))
+    return out
+
+
 WITNESS = {'Fd': 5, 'Ts': 1e-3, 'L': 4, 'shape': None, 'seed': 1, 'ops': [['s', 2048002], ['g', 1]]}
 
 
@@ -575,11 +1330,24 @@ def block_str(dims, first, count, epoch):
     return '%s/%s/%d/%d' % (';'.join(str(int(d)) for d in dims), first, count, epoch)
 
 
+def fmt_shape(sh):
+    if sh is None:
+        return 'n'
+    try:
+        return 't' + ';'.join(str(int(d)) for d in sh)
+    except Exception:
+        return 'bad(%.20r)' % (sh,)
+
+
 def impl_history(case, Probe):
-    """run a history on the real generator; one canonical state string per state
-    (constructor first) + the numeric material for the value / time comparison"""
-    Ts = case['Ts']
-    g = make_gen(case, Probe)
+    """run a raw history (typed arguments, rejected calls included) on the real generator; one
+    canonical state string per state (constructor first) + the numeric material for the value /
+    time comparison + whether every array handed out is still what it was (R3)"""
+    Ts = scaled(case)[1]
+    ctor_shape = mk_shape(case['shape'])
+    g = make_gen(case, Probe, shape_obj=ctor_shape)
+    if isinstance(ctor_shape, list):
+        ctor_shape.append(5)            # the caller goes on using its own list
     states, blocks = [], []
     known = {}                       # id(array) -> block string (arrays are kept alive in `blocks`)
     cur = {'phi': g._phi_l, 'psi': g._psi_l, 'phi_v': g._phi_l.copy(), 'psi_v': g._psi_l.copy(), 'epoch': 0}
@@ -592,59 +1360,128 @@ def impl_history(case, Probe):
                         'epoch': cur['epoch'] + 1})
     have_hook = hasattr(_impl().JakesSampleGenerator, '_generate_time_samples')
 
-    def snapshot(prod):
-        ct = getattr(g, '_current_time', None)
-        k = 'x' if ct is None else str(int(round(float(ct) / Ts)))
-        sh = g.shape
-        last = g.get_samples()
-        states.append('k=%s e=%d shape=%s prod=%s last=%s'
-                      % (k, cur['epoch'], 'n' if sh is None else 't' + ';'.join(str(int(d)) for d in sh),
-                         prod or '-', '-' if last is None else known.get(id(last), 'unknown')))
+    def counter():
+        """number of the next sample: the integer attribute when the code has one (read as is, so a
+        fixed-width / wrapped value shows), else the float time of the next sample over Ts"""
+        try:
+            if hasattr(g, '_sample_index'):
+                v = g._sample_index
+                return str(int(v)) if int(v) == v else repr(v)
+            return str(int(round(float(g._current_time) / float(Ts))))
+        except Exception:
+            return 'x'
 
-    def record_block():
+    def snapshot(prod, err='-'):
+        last = g.get_samples()
+        states.append('k=%s e=%d shape=%s prod=%s last=%s err=%s'
+                      % (counter(), cur['epoch'], fmt_shape(g.shape), prod or '-',
+                         '-' if last is None else known.get(id(last), 'unknown'), err))
+
+    def record_block(k_before):
         h = g.get_samples()
         t = g.verif_times[-1] if (have_hook and g.verif_times) else None
-        first = '?' if t is None or t.size == 0 else str(int(round(float(t[0]) / Ts)))
+        first = '?' if t is None else k_before if t.size == 0 else str(int(round(float(t[0]) / Ts)))
         s = block_str(h.shape, first, h.shape[-1] if h.ndim else -1, cur['epoch'])
         known[id(h)] = s
-        blocks.append({'h': h, 't': t, 'first': first, 'epoch': cur['epoch'], 'phi': cur['phi_v'], 'psi': cur['psi_v'],
-                       'str': s})
+        blocks.append({'h': h, 'copy': h.copy(), 't': t, 'first': first, 'epoch': cur['epoch'],
+                       'phi': cur['phi_v'], 'psi': cur['psi_v'], 'str': s})
         return s
 
-    snapshot(record_block())
+    snapshot(record_block('0'))
     for kind, arg in case['ops']:
-        if kind == 'g':
-            nt = len(g.verif_times)
-            g.generate_more_samples(arg)
-            if have_hook and len(g.verif_times) != nt + 1:
-                have_hook = False
-            track_epoch()
-            snapshot(record_block())
-        elif kind == 's':
-            g.skip_samples_for_next_generation(int(arg))
-            track_epoch()
-            snapshot(None)
-        else:
-            g.shape = shape_arg(arg)
-            track_epoch()
-            snapshot(None)
-    return states, blocks, have_hook
+        kb = counter()
+        nt = len(g.verif_times)
+        nb = None
+        try:
+            if kind == 'g':
+                if arg is None:
+                    g.generate_more_samples()
+                else:
+                    g.generate_more_samples(mk_size(arg))
+                nb = True
+            elif kind == 's':
+                g.skip_samples_for_next_generation(mk_size(arg))
+            else:
+                obj = mk_shape(arg)
+                g.shape = obj
+                if isinstance(obj, list):
+                    obj.append(5)       # the caller goes on using its own list
+            err = '-'
+        except Exception as e:
+            err = type(e).__name__
+        if nb and err == '-' and have_hook and len(g.verif_times) != nt + 1:
+            have_hook = False
+        track_epoch()
+        snapshot(record_block(kb) if (nb and err == '-') else None, err)
+    intact = all(np.array_equal(b['h'], b['copy']) for b in blocks)
+    return states, blocks, have_hook, intact
+
+
+def ctor_shape_tok(spec):
+    """the constructor's (valid) shape as the model's ShapeArg token"""
+    if spec is None or isinstance(spec, int):
+        return shape_tok(spec)
+    val = norm_shape(spec)
+    return 't' + ';'.join(str(d) for d in val)
+
+
+def robustness_branches(ctx, c, where):
+    """which robustness classes a case exercises (own required branch per class)"""
+    import json
+    ops = c.get('ops', [])
+    sizes = [o[1] for o in ops if o[0] in 'gs']
+    if any(size_dtype(a) in INT_TYPES or (size_dtype(a) or '').startswith('arr0:') for a in sizes):
+        ctx.branch(where + ':R1-typed-sizes')
+        pos = 1
+        for o in ops:
+            if o[0] in 'gs':
+                st, v = size_value(o[1])
+                dt = size_dtype(o[1])
+                if st == 'ok':
+                    if dt in INT_TYPES and pos <= np.iinfo(dt).max < pos + v:
+                        ctx.branch(where + ':R1-size-type-range-crossed')
+                        ctx.branch(where + ':R1-range-crossed:' + dt)
+                    pos += v
+    if c.get('types'):
+        ctx.branch(where + ':R1-typed-params')
+    if any(o[0] == 'S' and isinstance(o[1], dict) and shape_value(o[1])[0] == 'ok' for o in ops) \
+            or isinstance(c.get('shape'), dict):
+        ctx.branch(where + ':R1-typed-shape')
+    if has_caller_list(c):
+        ctx.branch(where + ':R3-caller-keeps-using-its-list')
+    if isinstance(c.get('seed'), dict) and 'layout' in c['seed']:
+        ctx.branch(where + ':R2-layout')
+    shapes = [c.get('shape')] + [o[1] for o in ops if o[0] == 'S']
+    if any(shape_value(sp)[0] == 'ok' and shape_value(sp)[1] is not None and 0 in shape_value(sp)[1] for sp in shapes):
+        ctx.branch(where + ':R2-zero-length-axis')
+    if any(size_dtype(a) and size_dtype(a).startswith('arr0:') for a in sizes):
+        ctx.branch(where + ':R2-0d-array-size')
+    if any(size_value(a)[0] != 'ok' for a in sizes) or any(shape_value(o[1])[0] != 'ok' for o in ops if o[0] == 'S'):
+        ctx.branch(where + ':R4-rejected-call')
+    if any(size_value(a) == ('ok', 0) for a in sizes):
+        ctx.branch(where + ':R5-zero-size-request')
+    if c.get('Fd') == 0 or c.get('L') == 1 or c.get('Ts') == 0:
+        ctx.branch(where + ':R5-degenerate-parameter')
+    if c.get('scale_exp10'):
+        ctx.branch(where + ':R6-scale')
+    if sum(1 for o in ops if o[0] == 'S') >= 2:
+        ctx.branch(where + ':R7-repeated-shape-assignment')
+    return json.dumps([c.get('shape'), ops, c.get('types'), c.get('scale_exp10')], sort_keys=True, default=str)
 
 
 def correspondence(ctx, cases):
     drv = core.Driver(DRIVER)
     Probe = probe_class()
-    lines = ['hist shape=%s ops=%s' % (shape_tok(shape_arg(c['shape'])), ','.join(op_tok(o) for o in c['ops']))
-             for c in cases]
+    lines = ['histx shape=%s ops=%s' % (ctor_shape_tok(c['shape']), ','.join(op_tok(o) for o in c['ops'])) for c in cases]
     replies = drv.ask(lines)
     vlines, vmeta = [], []
     tlines, tmeta = [], []
     for c, rep in zip(cases, replies):
         try:
-            states, blocks, have_hook = impl_history(c, Probe)
+            states, blocks, have_hook, intact = impl_history(c, Probe)
             impl = ' | '.join(states)
         except Exception as e:
-            impl, blocks, have_hook = 'exception:%s' % type(e).__name__, [], False
+            impl, blocks, have_hook, intact = 'exception:%s' % type(e).__name__, [], False, True
         model = rep
         if not have_hook:
             # no time hook: the first-sample number is not observable; compare the rest
@@ -652,13 +1489,16 @@ def correspondence(ctx, cases):
             import re
             model = re.sub(r'(\d)/\d+/(\d+)/(\d+)', r'\1/?/\2/\3', model)
         nontriv = len(c['ops']) >= 2
-        ctx.corr('history.bookkeeping', c, impl, model, nontrivial=nontriv,
-                 key=('hist', shape_tok(shape_arg(c['shape'])), tuple(op_tok(o) for o in c['ops'])))
+        hkey = robustness_branches(ctx, c, 'corr')
+        ctx.corr('history.bookkeeping', c, impl, model, nontrivial=nontriv, key=('hist', hkey))
+        ctx.corr('history.outputs-intact', c, 'intact' if intact else 'an array handed out earlier changed', 'intact',
+                 nontrivial=nontriv, key=('intact', hkey))
+        ctx.branch('corr:R3-outputs-intact-after-later-calls')
         for o in c['ops']:
             ctx.branch('op:' + ('gen-default' if (o[0] == 'g' and o[1] is None) else
                                 {'g': 'gen', 's': 'skip', 'S': 'set-shape'}[o[0]]))
         ctx.branch('shape:' + ('none' if c['shape'] is None else 'int' if isinstance(c['shape'], int) else
-                               'tuple%d' % len(c['shape'])))
+                               'typed' if isinstance(c['shape'], dict) else 'tuple%d' % len(c['shape'])))
         if impl != model:
             continue
         # numeric part: model blocks parsed from the model reply (first / count are the model's)
@@ -673,24 +1513,28 @@ def correspondence(ctx, cases):
             h = b['h']
             L = b['phi'].shape[0]
             ent = int(np.prod(h.shape[:-1], dtype=np.int64))
+            if count == 0 or ent == 0:
+                ctx.branch('corr:empty-block')
+                continue
+            Fd_p, Ts_p = scaled(c)
             hh = h.reshape(ent, count)
             phi = b['phi'].reshape(L, ent)
             psi = b['psi'].reshape(L, ent)
             js = sorted({0, count - 1, count // 2} | {ctx.rng.below(count) for _ in range(3)})
             idxs = range(ent) if ent <= 4 else sorted({0, ent - 1, ctx.rng.below(ent)})
-            tol = tol_for(L, c['Fd'], (first + count) * c['Ts'])
+            tol = case_tol(c, L, (first + count) * c['Ts'])
             if tol < 1e-6:
                 ctx.branch('value-tol<1e-6')
             for i in idxs:
                 for j in js:
                     vlines.append('val Fd=%s Ts=%s first=%d j=%d phi=%s psi=%s'
-                                  % (core.f2s(c['Fd']), core.f2s(c['Ts']), first, j,
+                                  % (core.f2s(Fd_p), core.f2s(Ts_p), first, j,
                                      ','.join(core.f2s(x) for x in phi[:, i]),
                                      ','.join(core.f2s(x) for x in psi[:, i])))
                     vmeta.append((c, first, i, j, complex(hh[i, j]), tol,
                                   None if b['t'] is None else float(b['t'][j])))
             if b['t'] is not None and count <= 2048:
-                tlines.append('time Ts=%s k=%d n=%d' % (core.f2s(c['Ts']), first, count))
+                tlines.append('time Ts=%s k=%d n=%d' % (core.f2s(Ts_p), first, count))
                 tmeta.append((c, first, count, b['t']))
     # values and probe times
     for (c, first, i, j, hv, tol, tv), rep in zip(vmeta, drv.ask(vlines)):
@@ -703,12 +1547,12 @@ def correspondence(ctx, cases):
         STATS['corr_value'] = max(STATS['corr_value'], abs(hv - mv) / tol)
         ctx.corr('history.value', {'case': c, 'first': first, 'entry': i, 'j': j},
                  'close' if ok else 'impl=%r model=%r tol=%.3g' % (hv, mv, tol), 'close',
-                 nontrivial=tol < 1e-6, key=('val', c['seed'], first, i, j))
+                 nontrivial=tol < 1e-6, key=('val', repr(c['seed']), first, i, j))
         if tv is not None:
             mt = core.s2f(f['t'])
             ok = ulps(tv, mt) <= 2
             ctx.corr('history.time', {'case': c, 'first': first, 'j': j},
-                     'close' if ok else 'impl=%r model=%r' % (tv, mt), 'close', key=('time', c['seed'], first, j))
+                     'close' if ok else 'impl=%r model=%r' % (tv, mt), 'close', key=('time', repr(c['seed']), first, j))
             ctx.branch('time-bit-exact' if tv == mt else 'time-within-2ulp' if ok else 'time-differs')
     # whole time vectors of the smaller requests
     for (c, first, count, t), rep in zip(tmeta, drv.ask(tlines)):
@@ -716,7 +1560,7 @@ def correspondence(ctx, cases):
         ok = mt.shape == t.shape and all(ulps(float(a), float(b)) <= 2 for a, b in zip(t, mt))
         ctx.corr('history.time-vector', {'case': c, 'first': first, 'n': count},
                  'close' if ok else 'impl=%s model=%s' % (t[:4].tolist(), mt[:4].tolist()), 'close',
-                 key=('tvec', c['seed'], first, count))
+                 key=('tvec', repr(c['seed']), first, count))
 
 
 def rejection_correspondence(ctx):
@@ -804,6 +1648,56 @@ def oracle_campaign(ctx, n_hist, n_chunk, n_zero, n_mag, n_fun, long_cases, n_ti
         run_oracle(ctx, 'generate_jakes_samples', cfg)
 
 
+ROBUST_BRANCHES = [w + b for w in ('corr', 'oracle') for b in (
+    ':R1-typed-sizes', ':R1-size-type-range-crossed', ':R1-range-crossed:int8', ':R1-range-crossed:uint8',
+    ':R1-range-crossed:int16', ':R1-range-crossed:uint16', ':R1-range-crossed:int32', ':R1-range-crossed:uint32',
+    ':R1-typed-params', ':R1-typed-shape', ':R3-caller-keeps-using-its-list', ':R2-layout', ':R2-zero-length-axis', ':R2-0d-array-size',
+    ':R4-rejected-call', ':R5-zero-size-request', ':R5-degenerate-parameter', ':R6-scale',
+    ':R7-repeated-shape-assignment')] + [
+    'corr:R3-outputs-intact-after-later-calls', 'oracle:R3-outputs-and-inputs-intact', 'oracle:R7-lifecycle',
+    'oracle:R1R2R3-function-inputs', 'oracle:R5-Ts=0', 'oracle:R1-typed-chunks']
+
+
+def robustness_campaign(ctx, robust, n_life):
+    """first-principles oracles on the robustness families: closed form (o_history, includes the R3 / R4
+    checks) and canonical twin (o_twin) on every case, life-cycle oracle (R7), free function inputs"""
+    for fam, case in robust:
+        robustness_branches(ctx, case, 'oracle')
+        run_oracle(ctx, 'generate_more_samples', case)
+        run_oracle(ctx, 'generate_more_samples.twin', case)
+        ctx.branch('oracle:R3-outputs-and-inputs-intact')
+    # Ts = 0.0: every sample is the value at time 0 (oracles only: the counter is not observable from the time)
+    for Fd in (0.0, 5.0):
+        run_oracle(ctx, 'generate_more_samples', small_cfg(ctx.rng, Fd=Fd, Ts=0.0, ops=[['g', 3], ['s', 5], ['g', None], ['g', 2]]))
+        ctx.branch('oracle:R5-Ts=0')
+    # typed chunk sizes against one Python-int request
+    for dt, sizes in (('uint8', [200, 200, 100]), ('int8', [100, 100, 27]), ('uint16', [40000, 30000, 5]),
+                      ('int16', [30000, 30000, 9000]), ('arr0:int16', [20000, 20000, 3]), ('int64', [5, 7, 11])):
+        for kinds in ('ggg', 'gsg', 'sgg'):
+            cfg = small_cfg(ctx.rng, k0=ctx.rng.choice([0, 17]),
+                            chunks=[[kd, {'t': dt, 'v': v}] for kd, v in zip(kinds, sizes)])
+            run_oracle(ctx, 'generate_more_samples.chunking', cfg)
+            ctx.branch('oracle:R1-typed-chunks')
+    for _ in range(n_life):
+        cfg = valid_int_history(ctx.rng, ctx.rng.randint(0, 6))
+        if isinstance(cfg['seed'], dict):
+            continue
+        cfg['tail'] = ctx.rng.randint(1, 50)
+        run_oracle(ctx, 'generate_more_samples.lifecycle', cfg)
+        ctx.branch('oracle:R7-lifecycle')
+    for _ in range(n_life):
+        cfg = gen_config(ctx.rng)
+        cap = max(1, min(5000, BUDGET // (cfg['L'] * entry_count(cfg['shape']))))
+        N = ctx.rng.choice([0, 1, ctx.rng.randint(1, cap)])
+        fits = [t for t in INT_TYPES if N <= np.iinfo(t).max]
+        cfg.update({'N': ctx.rng.choice([N, {'t': ctx.rng.choice(fits), 'v': N}]),
+                    'k0': ctx.rng.choice([0, 0, gen_skip(ctx.rng)]),
+                    'arr': ctx.rng.choice(['F', 'transposed', 'strided', 'reversed', 'readonly', 'list', 'float32', 'C'])})
+        cfg['k0'] = min(cfg['k0'], 10 ** 10 - N)
+        run_oracle(ctx, 'generate_jakes_samples', cfg)
+        ctx.branch('oracle:R1R2R3-function-inputs')
+
+
 def reference_selfcheck(ctx, n):
     """the extended-precision reference against exact-rational phase reduction"""
     for _ in range(n):
@@ -829,13 +1723,13 @@ def check(ctx):
     ctx.rule = ('histories: constructor + 1..12 seeded requests generate(None|1..1e5) / skip(1..~8e9, incl. 2^e+-3) / '
                 'shape reassignment, Fd in {0} u [0.01,1000], Ts in 1e-9..1 (log-uniform + fixed values), L 1..20, '
                 'shape None/int/tuples of 0..3 dims, numpy RandomState(seed) phases; long-run sweep: skip to 2^e+d '
-                'then small requests; histories of 1e3..3e4 requests of 1..4 samples; every history of <= 3 (quick) / 4 (thorough) requests over a 9-letter alphabet; non-trivial = distinct history with >= 2 requests / distinct value probe '
+                'then small requests; robustness families R1..R7 (typed sizes crossing the range of each integer type, typed parameters and shapes, phase layouts, rejected calls, boundary sizes/shapes, rescaled time axis, life cycle); histories of 1e3..3e4 requests of 1..4 samples; every history of <= 3 (quick) / 4 (thorough) requests over a 9-letter alphabet; non-trivial = distinct history with >= 2 requests / distinct value probe '
                 'whose tolerance is < 1e-6 / distinct oracle case')
     core.prove(ctx, MODULE, generated=[], drivers=[DRIVER], scratch=ctx.scratch)
     ctx.required_branches = ['op:gen', 'op:gen-default', 'op:skip', 'op:set-shape', 'shape:none', 'shape:int',
                              'long-run-request(k>=2^21)', 'position>=1e9', 'value-tol<1e-6', 'Fd=0',
                              'magnitude:at-bound', 'oracle:long-run', 'corpus', 'tiny-request-history',
-                             'oracle:tiny-request-history']
+                             'oracle:tiny-request-history'] + ROBUST_BRANCHES
     n_hist = 600 if quick else 6000
     cases = [dict(WITNESS)]
     cases += [gen_history(ctx.rng) for _ in range(n_hist)]
@@ -850,6 +1744,8 @@ def check(ctx):
     small = small_scope_histories(3 if quick else 4)
     ctx.branch('small-scope-histories', len(small))
     cases += small
+    robust = robustness_cases(ctx.rng, 40 if quick else 600)
+    cases += [c for _, c in robust if c.get('Ts') != 0]
     try:
         correspondence(ctx, cases)
         rejection_correspondence(ctx)
@@ -864,6 +1760,7 @@ def check(ctx):
         oracle_campaign(ctx, 400, 200, 100, 100, 100, longs)
     else:
         oracle_campaign(ctx, 6000, 3000, 1000, 1000, 1000, longs, n_tiny=10, tiny_len=30000)
+    robustness_campaign(ctx, robust, 60 if quick else 800)
     ctx.extra['max_error_over_tolerance'] = {k: (round(v, 4) if isinstance(v, float) else v) for k, v in STATS.items()}
     ctx.sample({'call': 'generate_more_samples', 'case': WITNESS,
                 'check': 'skip 2048002 then request 1 sample: 1 sample, value = Jakes sum at 2048003*Ts'})
@@ -874,6 +1771,11 @@ def check(ctx):
 
 def search(ctx):
     """deeper failing-input search, used when a proof / correspondence broke"""
+    for fam, case in robustness_cases(ctx.rng, 150):
+        run_oracle(ctx, 'generate_more_samples', case)
+        run_oracle(ctx, 'generate_more_samples.twin', case)
+        if len(ctx.failures) >= 20:
+            return
     longs = long_run_cases(ctx.rng, range(8, 34), (-3, -1, 0, 1, 2, 7, 12345), (1, 2, 3, 7, 10, 100, 1000),
                            [1e-3, 1.0, 1e-6, 1e-9, 2.0 ** -10, 0.37e-4, 0.1])
     for case in longs[::2]:
